@@ -40,8 +40,8 @@ Ref == RelativizeIdeal(S, B, mode)
 \* the relation is not empty: the ideal function is inside it
 InvIdealInRelation == stage = 2 => RelativizeOK(S, B, mode, 0, Ref)
 \* closed forms = witness search
-\* (the query plays no part in them: the quick universe evaluates the search on query-less pairs only)
-InvClosedForms == stage = 2 /\ S.sc = B.sc /\ (Rich \/ (S.q = None /\ B.q = None)) =>
+\* (the query plays no part in them: the search is evaluated on query-less pairs only)
+InvClosedForms == stage = 2 /\ S.sc = B.sc /\ S.q = None /\ B.q = None =>
     /\ CanOmitScheme(S, B) = SchemelessWitness(S, B)
     /\ (SameAuth(S, B) => CanUseAbsPath(S, B) = AbsPathWitness(S, B))
 \* a non-absolute operand is rejected with its code (the relation pins the code)
